@@ -54,7 +54,10 @@ RULE = ("class hierarchies of 1..4 class statements (plus up to 3 extra front-en
         "= at least one decorated class with a base")
 EXTRA_TRUSTED = ["CPython's C3 linearisation (cls.__mro__ is an input of the model), class-body "
                  "namespace semantics, name mangling and `from __future__ import annotations` "
-                 "stringification (computed by the harness with a probe class, independently of attrs)"]
+                 "stringification (computed by the harness with a probe class, independently of attrs)",
+                 "harness/translate_c07.py: the translator from the Python text of _collect_base_attrs, "
+                 "_collect_base_attrs_broken, the order-check loop of _transform_attrs, add_match_args and the "
+                 "fields_dict comprehension to Gallina (Gen/C07_Collect.v; lemmas in C07/Tie.v)"]
 ASSUMPTIONS = ["field_transformer hooks are functions of the attribute list they receive",
                "every _CountingAttr object is bound to at most one name of one class body "
                "(counters of the entries of one body are pairwise distinct)",
@@ -105,6 +108,14 @@ def pre_build():
     global HEADER
     pre = read_prefixes()
     HEADER = _HEADER0 + "Definition cvp : list string := %s.\n" % lst(q(p) for p in pre)
+    # Gen/C07_Collect.v is regenerated from the current source on every run (tie by translation)
+    from . import translate_c07
+    translate_c07.regenerate()
+
+
+def translated_tie():
+    from . import translate_c07
+    return translate_c07.regenerate(), "theories/C07/Tie.vo"
 
 
 # --------------------------------------------------------------------------------------
